@@ -364,6 +364,10 @@ void BaseIndex::BlockConnected(const ChainstateRole& role, const std::shared_ptr
             return;
         }
     } else {
+        // The genesis block has no predecessor the index could be rewound to. If it is connected
+        // while the index already has a best block, this is a notification from the
+        // ValidationInterface queue backlog for a block the sync thread has indexed already.
+        if (!pindex->pprev) return;
         // Ensure block connects to an ancestor of the current best block. This should be the case
         // most of the time, but may not be immediately after the sync thread catches up and sets
         // m_synced. Consider the case where there is a reorg and the blocks on the stale branch are
